@@ -430,6 +430,61 @@ class ExprMixin(object):
         st1.assume(z3.ForAll([k], z3.Implies(z3.And(0 <= k, k < n), z3.Select(items, k) == sub(coerce(elt, elt.ty), k))))
       yield st1, res
 
+  def ev_DictComp(self, node, st, cx):
+    """{k: f(k, v) for k, v in d.items() if c(k, v)}: a fresh dictionary defined pointwise."""
+    from .state import VBound
+    from .types import flatten
+    from .state import to_terms
+    g = node.generators[0] if len(node.generators) == 1 else None
+    if g is None or g.is_async or not (isinstance(g.target, ast.Tuple) and len(g.target.elts) == 2 and
+                                       all(isinstance(e, ast.Name) for e in g.target.elts)) \
+        or not (isinstance(node.key, ast.Name) and node.key.id == g.target.elts[0].id):
+      raise Unsupported('dict comprehension shape (line %d)' % node.lineno)
+    for st1, view in self.ev(g.iter, st, cx):
+      if isinstance(view, Exc):
+        yield st1, view
+        continue
+      if not (isinstance(view, VBound) and view.kind == 'dictview' and view.name == 'items'):
+        raise Unsupported('dict comprehension over %r (line %d)' % (view, node.lineno))
+      d = view.recv
+      kty, vty = d.ty.args
+      kx = z3.Const(fresh_name('ck'), base_sort(kty))
+      fid = fresh_name('dc')
+      kval = V(kty, kx)
+      vval = self.dict_get(st1, d, kx)
+      st1.frames[fid] = {g.target.elts[0].id: kval, g.target.elts[1].id: vval}
+      ccx = Ctx(cx.mod, cx.cls, [fid] + list(cx.chain), cx.spec, cx.qual)
+      self.spec_depth += 1
+      try:
+        val = self.ev1(node.value, st1, ccx)
+        cond = z3.BoolVal(True)
+        for c in g.ifs:
+          cond = z3.And(cond, self.truth(st1, self.ev1(c, st1, ccx)))
+      finally:
+        self.spec_depth -= 1
+        st1.frames.pop(fid, None)
+      ty = self.expected_type(cx, node) or Ty('dict', [kty, val.ty if isinstance(val, V) else vty])
+      r = self.new_ref(st1)
+      res = V(ty.with_opt(False), r)
+      hk = self.ckey(ty, 'has')
+      ha = self.arr(st1, hk, [I, base_sort(kty), z3.BoolSort()])
+      nh = z3.Const(fresh_name('chas'), z3.ArraySort(base_sort(kty), z3.BoolSort()))
+      src_has = self.dict_has_arr(st1, d)
+      st1.assume(z3.ForAll([kx], z3.Select(nh, kx) == z3.And(z3.Select(src_has, kx), cond)))
+      st1.heap[hk] = z3.Store(ha, r, nh)
+      for (suf, so), t in zip(flatten(ty.args[1]), to_terms(val, ty.args[1])):
+        vk = self.ckey(ty, 'val') + suf
+        va = self.arr(st1, vk, [I, base_sort(kty), so])
+        nv = z3.Const(fresh_name('cval'), z3.ArraySort(base_sort(kty), so))
+        st1.assume(z3.ForAll([kx], z3.Select(nv, kx) == t))
+        st1.heap[vk] = z3.Store(va, r, nv)
+      ck = self.ckey(ty, 'card')
+      ca = self.arr(st1, ck, [I, I])
+      nc = z3.Int(fresh_name('ccard'))
+      st1.assume(z3.And(nc >= 0, nc <= self.dict_card(st1, d)))
+      st1.heap[ck] = z3.Store(ca, r, nc)
+      yield st1, res
+
   def expected_type(self, cx, node):
     """Declared type for a literal: via the assigned name/field, or the sidecar 'literals' table."""
     t = getattr(node, '_pyvc_type', None)
@@ -727,7 +782,14 @@ class ExprMixin(object):
         yield st, V(T, r)
       else:
         f = z3.Function('pow', z3.RealSort(), z3.RealSort(), z3.RealSort())
-        yield st, V(REAL, f(num_term(a, True), num_term(b, True)))
+        xr, yr = num_term(a, True), num_term(b, True)
+        r = f(xr, yr)
+        # the only facts assumed of real exponentiation: positive base gives a positive power;
+        # x > 1 and e > 1 give x**e > x ; x >= 1 and e >= 1 give x**e >= x
+        st.assume(z3.Implies(xr > 0, r > 0))
+        st.assume(z3.Implies(z3.And(xr > 1, yr > 1), r > xr))
+        st.assume(z3.Implies(z3.And(xr >= 1, yr >= 1), r >= xr))
+        yield st, V(REAL, r)
     elif isinstance(op, (ast.RShift, ast.LShift, ast.BitAnd)):
       if real or not z3.is_int_value(z3.simplify(y)):
         raise Unsupported('bit operation with non-constant right operand (line %s)' % getattr(node, 'lineno', '?'))
